@@ -19,7 +19,7 @@ RULE = ("rotations incl. angles within 1e-9 of 0 and pi on every axis (all three
         "rotation; embeddings SO2->SE2, SO3->SE3, SE2->SE3 as homomorphisms preserving the action on points; expression "
         "trees evaluated independently per representation. Non-trivial: angle within 1e-6 of 0 or pi, or |t|>1e3, or axis "
         "length outside [0.5,2], or tree depth>=2.")
-RULE = RULE + probes.RULE_TEXT + (probes.AUG_TEXT if PROPERTY_ID in probes.AUG_PROPS else "") + probes.VARIANT_TEXT
+RULE = RULE + probes.RULE_TEXT + (probes.AUG_TEXT if PROPERTY_ID in probes.AUG_PROPS else "") + probes.VARIANT_TEXT + probes.OWN_TEXT
 ASSUMPTIONS = ["all values compared as matrices to 1e-6 relative to max(1,|t|); quaternions through the reference q2r (sign-free)",
                "UnitDualQuaternion has no inverse method: only products and round trips are checked for it"]
 
@@ -76,7 +76,7 @@ def s_tree(maxdepth):
 
 
 def check_case(case):
-    if case.get("kind") in ("hist", "aug", "variant"):
+    if case.get("kind") in ("hist", "aug", "variant", "own"):
         return probes.run(case, PROPERTY_ID)
     return {"round": _round, "ctor": _ctor, "embed": _embed, "tree": _tree}[case["kind"]](case)
 
@@ -308,10 +308,16 @@ def _ctor(case):
     tsc = max(1.0, float(np.max(np.abs(Tfull[:3, 3]))))
     for rep, f in (("SE3.Exp", lambda: L.SE3.Exp(S6.copy())), ("Twist3.SE3", lambda: L.Twist3(S6.copy()).SE3()), ("Twist3.exp", lambda: L.Twist3(S6.copy()).exp()),
                    ("UDQ(Twist3.SE3)", lambda: L.UnitDualQuaternion(L.Twist3(S6.copy()).SE3()).SE3()),
-                   ("Twist3*Twist3", lambda: (L.Twist3(S6 / 2) * L.Twist3(S6 / 2)).SE3())):
+                   ("Twist3*Twist3", lambda: (L.Twist3(S6 / 2) * L.Twist3(S6 / 2)).SE3()),
+                   ("Twist3[3].prod", lambda: L.Twist3([L.Twist3(S6 / 3), L.Twist3(S6 / 3), L.Twist3(S6 / 3)]).prod().SE3()),
+                   ("Twist3[5].prod", lambda: L.Twist3([L.Twist3(S6 / 5)] * 5).prod().SE3())):
         ok, o_ = c.lib("twist:" + rep, f)
         if ok:
             c.eq("twist:%s/value" % rep, m_of(o_), Tfull, TOL, tsc)
+    # exponential coordinates of the quaternion: exp of the pure quaternion w/2 is the rotation exp([w]), whatever |w|
+    okq, qe = c.lib("Quaternion.Pure(w/2).exp", lambda: L.Quaternion.Pure(list(w2 / 2.0)).exp())
+    if okq and float(np.linalg.norm(w2)) > 1e-6:
+        c.eq("Quaternion.Pure(w/2).exp/rotation", m_of(qe)[:3, :3], Tfull[:3, :3], TOL)
     # two-vector frame: third column along a, second in the plane of (o, a)
     av = refs.unit(case["axis"])
     perp = np.cross(av, refs.unit(case["perp"]))
@@ -430,6 +436,20 @@ def _tree(case):
         return c.out
     has_inv = "inv" in str(case["tree"])
     has_pow = "pow" in str(case["tree"])
+
+    def mult(t):
+        # how many times leaf values enter the result: the conversion of ONE leaf into another representation is good
+        # to a few 1e-8 only (matrix -> quaternion of a matrix carrying rounding noise: square root of eps), and a
+        # power multiplies that angle error by its exponent
+        if t[0] == "leaf":
+            return 1
+        if t[0] == "mul":
+            return mult(t[1]) + mult(t[2])
+        if t[0] == "pow":
+            return max(1, abs(t[2])) * mult(t[1])
+        return mult(t[1])
+    tol_tree = max(TOL, 1e-7 * mult(case["tree"]))
+    c.feat(multiplicity=mult(case["tree"]))
     for rep in REPS:
         if rep == "UnitDualQuaternion" and has_inv:
             continue
@@ -441,12 +461,12 @@ def _tree(case):
         ok, r = c.lib("eval:" + rep, ev_lib, case["tree"], leaves, False)
         if ok:
             w = refs.rt(want[:3, :3], np.zeros(3)) if rot_only(rep) else want
-            c.eq("value:" + rep, m_of(r), w, TOL, sc)
+            c.eq("value:" + rep, m_of(r), w, tol_tree, sc)
     return c.out
 
 
 def classify(case):
-    if case.get("kind") in ("hist", "aug", "variant"):
+    if case.get("kind") in ("hist", "aug", "variant", "own"):
         return probes.classify(case)
     k = case["kind"]
     lab = {"kind:" + k: True}
